@@ -9,7 +9,9 @@ Oracles (no model): tainted ∧ selected ⇒ executed, and untainted after a suc
                exactly tainted ∪ no-cache (dependants are not invalidated when outputs reproduce); a no-cache dependency whose
                outputs swap contents invalidates its dependant (clean-build oracle).
 """
+import os
 from checks import _hist as H
+from checks import _hist2 as H2
 import vlib
 
 PROPERTY = "C13"
@@ -65,11 +67,18 @@ FAMILIES_QUICK = [("taint", 9, {}), ("nocache", 7, {}), ("disabled", 6, {}), ("t
                   ("outless", 5, {"minimal": True}), ("taint", 4, {"minimal": True}), ("nocache", 4, {"minimal": True})]
 FAMILIES_THOROUGH = [(f, n * 15, kw) for f, n, kw in FAMILIES_QUICK]
 
+# round-c families (generators in _hist2.py)
+FAMILIES2_QUICK = [("checksonly", 4, {}), ("checksonly", 2, {"minimal": True}), ("dirtaint", 3, {}), ("dirtaint", 1, {"minimal": True}),
+                   ("interrupt", 3, {}), ("interrupt", 1, {"minimal": True})]
+GEN2 = {"checksonly": H2.gen_checksonly, "dirtaint": H2.gen_dirtaint, "interrupt": H2.gen_interrupt}
+
 
 def run(ctx):
     quick = ctx.tier == "quick"
     fams = FAMILIES_QUICK if quick else FAMILIES_THOROUGH
     hists = []
+    if os.environ.get("VERIF_DEV_ONLY_NEW"):
+        fams = []       # development only: run just the round-c families
     for fam, n, kw in fams:
         for _ in range(n):
             h = H.gen_history(ctx.rng, fam, **kw)
@@ -78,12 +87,19 @@ def run(ctx):
             hists.append(h)
     for _ in range(2 if quick else 10):
         hists.append(H.gen_swap(ctx.rng, nocache=True))
+    for fam, n, kw in FAMILIES2_QUICK:
+        for _ in range(n if quick else n * 15):
+            hists.append(GEN2[fam](ctx.rng, **kw))
     ctx.coverage["rule"] = ("layered DAGs of 2-6 targets with no-cache tags at random positions (p=0.3); histories mixing edits, "
                             "`grog taint` of one label or //..., builds with random selections, --enable-cache=false builds; families: "
                             + ", ".join("%s%s x%d" % (f, "(minimal)" if kw.get("minimal") else "", n) for f, n, kw in fams) +
                             " + output-swap of a no-cache dependency; taint patterns also cover a target together with one of its dependencies or a whole "
                             "package; taintdis = cache-disabled build while tainted; outless = 40% targets without outputs (also no-cache) under minimal; "
-                            "tool = a no-cache target whose only output is a script that is also its input, with a cached dependant; non-trivial = distinct history with >=2 builds, one executing and one with a hit")
+                            "tool = a no-cache target whose only output is a script that is also its input, with a cached dependant; round-c families: "
+                            + ", ".join("%s%s x%d" % (f, "(minimal)" if kw.get("minimal") else "", n) for f, n, kw in FAMILIES2_QUICK) +
+                            " (checksonly = targets without inputs and outputs that only carry output checks, cached and no-cache, tainted / built with the cache "
+                            "disabled; dirtaint = a tainted target with a dir:: output and dependants reproduces identical outputs; interrupt = the build that runs a "
+                            "tainted target is interrupted by SIGINT/SIGTERM while a dependant of it is running); non-trivial = distinct history with >=2 builds, one executing and one with a hit")
     recs = H.run_both(ctx, hists, "c13")
     if recs is None:
         return
@@ -128,6 +144,28 @@ def run(ctx):
             pre_t = set(o["pre_tainted"])
             pending |= set(H.matched_targets(ws, b["taints_since"]))
             pending &= set(ws["targets"])
+            pi = b["prev"]
+            if pi is not None and pi["step"].get("interrupt") and s.get("enable_cache", True):
+                # the previous build was interrupted. A tainted target whose command ran in it and one of whose dependants was
+                # started afterwards has been executed SUCCESSFULLY (dependants start only then): its taint is consumed.
+                pex = set(pi["obs"]["executed"])
+                for l in sorted(set(pi["obs"]["pre_tainted"]) & pex & set(sel)):
+                    if not any(l in H.rdeps(pi["ws"], y) for y in pex if y in pi["ws"]["targets"]):
+                        continue
+                    cnt["interrupted_taint_builds"] = cnt.get("interrupted_taint_builds", 0) + 1
+                    anc = H.descendants(ws, {x for wa, wb, _, _ in b["edits_since"] for x in H.touched(wa, wb)})
+                    if l in pi["obs"]["tainted"]:
+                        fail("a tainted target was executed successfully (its dependant was started afterwards) but its taint marker is still "
+                             "there after the build, which was interrupted later on", h, pi, "taint-not-consumed-by-successful-execution", target=l)
+                    elif l in ex and l not in anc and l not in set(H.matched_targets(ws, b["taints_since"])) and not ws["targets"][l].get("nocache") \
+                            and l in pi["ws"]["targets"] and H.tkey(pi["ws"], l) == H.tkey(ws, l):
+                        fail("a target whose taint was consumed by a successful execution (in a build that was interrupted afterwards) was "
+                             "executed again by the next build", h, b, "taint-not-consumed-by-successful-execution", target=l)
+            if s.get("interrupt"):
+                if o.get("rc") == 125:
+                    cnt["interrupts_not_delivered"] = cnt.get("interrupts_not_delivered", 0) + 1
+                pending -= set(o["executed"])       # whether these executions succeeded is judged by the oracle above
+                continue
             if not (s.get("fail_fast") and not o["ok"]):
                 for l in sorted(pending & set(sel)):
                     t = ws["targets"][l]
@@ -211,4 +249,6 @@ def replay(ctx, rep):
         rc, out = vlib.go_test("./internal/execution/", "TestVerifTaintConsumedWhenBuildReturns", timeout=600)
         print(out[-1500:])
         return 1 if rc else 0
+    if rep.get("signature") == "taint-not-consumed-by-successful-execution":
+        return H2.replay_oracles(ctx, rep)
     return H.replay_history(ctx, rep)
